@@ -525,16 +525,42 @@ def realise(items, rng, kind, counter):
 # random definitions
 # --------------------------------------------------------------------------
 
-NAMES = ["x", "x_0", "y", "x_1", "x_0_0", "x_0_1", "$x", "_x", "x$0", "T_3_45"]
+NAMES = ["x", "x_0", "y", "x_1", "x_0_0", "x_0_1", "$x", "_x", "x$0", "T_3_45",
+         "x0", "x1", "x00", "x_", "x__0", "x_00", "x01", "x10", "x0_0", "x_0_", "x$", "x$$0", "xx", "x_x"]
+
+# Identifiers the grammar accepts that look like a renamed / suffixed / versioned
+# `x`: whatever separator (none, `_`, `$`, `__`) a key or a printed form puts
+# between the name and a suffix or version number, one of these collides with
+# it. `x.0` itself is not an identifier (C10_identifiers_have_no_dot).
+LOOKALIKES = ["x_0", "x0", "x_1", "x1", "x00", "x_0_0", "x0_0", "x$0", "x__0", "x_00", "x_0_1", "x01", "x10", "x_", "x$"]
+
+
+def name_pool(rng):
+    """The names of one random definition: `x`, one to three lookalikes of a
+    suffixed `x`, `y`, now and then a few unrelated shapes. `x_0` (the D20
+    pattern) and `x0` (no separator) are the most frequent lookalikes."""
+    r = rng.random()
+    if r < 0.30:
+        look = ["x_0"]
+    elif r < 0.55:
+        look = ["x0"]
+    elif r < 0.70:
+        look = ["x_0", "x0"]
+    elif r < 0.80:
+        look = ["x1", "x_1"] if rng.random() < 0.5 else ["x0", "x1"]
+    else:
+        look = rng.sample(LOOKALIKES, 1 + rng.randrange(3))
+    names = ["x"] + look + ["y"]
+    if rng.random() < 0.15:
+        names += rng.sample(["$x", "_x", "T_3_45", "xx", "x_x"], 1 + rng.randrange(2))
+    return names
 
 
 def rand_def(rng, size, names=None, kind=None, clean=False):
     """A random definition with about `size` declarations/uses. `clean`
     restricts to functions in which every variable is initialised where it is
     declared and every use is declared (SSA construction must succeed)."""
-    names = names or NAMES[:3 + rng.randrange(3)]
-    if rng.random() < 0.7:
-        names = names[:3]
+    names = names or name_pool(rng)
     kind = kind or ("function" if clean or rng.random() < 0.6 else "template")
     nparams = rng.choice([0, 1, 1, 2, 3])
     params = []
